@@ -21,8 +21,10 @@ import (
 	"bytes"
 	"encoding/hex"
 	"fmt"
+	"github.com/ontio/ontology-crypto/keypair"
 	"github.com/polynetwork/poly/common"
 	"github.com/polynetwork/poly/common/config"
+	vconfig "github.com/polynetwork/poly/consensus/vbft/config"
 	"github.com/polynetwork/poly/core/genesis"
 	cstates "github.com/polynetwork/poly/core/states"
 	"github.com/polynetwork/poly/native"
@@ -178,6 +180,12 @@ func RegisterCandidate(native *native.NativeService) ([]byte, error) {
 	if err != nil {
 		return utils.BYTE_FALSE, fmt.Errorf("registerCandidate, peerPubkey format error: %v", err)
 	}
+	//many byte strings deserialize to the same public key (trailing bytes, uncompressed or labelled form): only the
+	//canonical serialization, the one vconfig.PubkeyID produces, identifies a peer
+	peerPubkey, err := vconfig.Pubkey(params.PeerPubkey)
+	if err != nil || !bytes.Equal(peerPubkeyPrefix, keypair.SerializePublicKey(peerPubkey)) {
+		return utils.BYTE_FALSE, fmt.Errorf("registerCandidate, peerPubkey is not the canonical serialization of the public key")
+	}
 	//get black list
 	blackList, err := native.GetCacheDB().Get(utils.ConcatKey(contract, []byte(BLACK_LIST), peerPubkeyPrefix))
 	if err != nil {
@@ -206,13 +214,13 @@ func RegisterCandidate(native *native.NativeService) ([]byte, error) {
 	if err != nil {
 		return utils.BYTE_FALSE, fmt.Errorf("registerCandidate, get peerPoolMap error: %v", err)
 	}
-	//check if exist in PeerPool: compare the decoded keys, the same public key may be spelled in another hex case
+	//check if exist in PeerPool: compare the public keys, the same key may be spelled in another hex case or encoding
 	for key := range peerPoolMap.PeerPoolMap {
-		k, err := hex.DecodeString(key)
+		k, err := vconfig.Pubkey(key)
 		if err != nil {
 			return utils.BYTE_FALSE, fmt.Errorf("registerCandidate, peerPubkey in peerPoolMap format error: %v", err)
 		}
-		if bytes.Equal(k, peerPubkeyPrefix) {
+		if bytes.Equal(keypair.SerializePublicKey(k), peerPubkeyPrefix) {
 			return utils.BYTE_FALSE, fmt.Errorf("registerCandidate, peerPubkey is already in peerPoolMap")
 		}
 	}
